@@ -348,34 +348,4 @@ theorem rankedPairs_cw {v : Pairwise} (hwf : WF v) {w : Cand} (hw : IsCW v w) (s
       subst hh
       rw [← h]; rfl
 
-/-! ### minimax: the worst counter-score is the maximum over the present pairs -/
-
-theorem omaxFold_mem (l : List Rat) (a : Option Rat) {s : Rat} (h : l.foldl omax a = some s) : a = some s ∨ s ∈ l := by
-  induction l generalizing a with
-  | nil => exact Or.inl h
-  | cons x xs ih =>
-    rw [List.foldl_cons] at h
-    rcases ih _ h with h1 | h1
-    · cases a with
-      | none =>
-        simp only [omax, Option.some.injEq] at h1
-        exact Or.inr (by simp [h1])
-      | some a0 =>
-        simp only [omax, Option.some.injEq] at h1
-        unfold rmax at h1
-        split at h1
-        · exact Or.inr (by simp [h1])
-        · exact Or.inl (by rw [h1])
-    · exact Or.inr (List.mem_cons_of_mem _ h1)
-
-theorem omaxFold_none (l : List Rat) (h : l.foldl omax none = none) : l = [] := by
-  cases l with
-  | nil => rfl
-  | cons x xs =>
-    rw [List.foldl_cons] at h
-    obtain ⟨s, hs, _⟩ := omaxFold_some xs x
-    simp only [omax] at h
-    rw [hs] at h
-    simp at h
-
 end VL.Condorcet
